@@ -88,7 +88,7 @@ func suffixRace(r *ev.Run, e *etcdx.Etcd, rng *rand.Rand, n int) string {
 	step("m0 is PD leader")
 	// From here on every suffix transaction of either member parks at the client boundary; one
 	// parked transaction at a time is released, following the pattern chosen for this schedule.
-	patterns := []string{"ABAB", "ABBA", "AABB", "BABA", "BAAB", "BBAA"}
+	patterns := []string{"ABAB", "ABBA", "BABA", "ABAB", "AABB", "ABBA", "BAAB", "ABAB", "BBAA", "ABBA"}
 	pattern := patterns[n%len(patterns)]
 	type side struct {
 		name   string
